@@ -13,16 +13,18 @@
 (*      rtol, atol.                                                          *)
 EXTENDS DualAveraging, EpochRules, TraceBatch
 
-VARIABLE ks       \* last observed tuning state (tuple), <<>> before the first event
+VARIABLES ks,     \* last observed tuning state (tuple), <<>> before the first event
+          tcount  \* transitions of the current epoch seen so far
 
 R(x) == [eps |-> x[1], H |-> x[2], lavg |-> x[3], mu |-> x[4]]
 Cl(x, r) == Same(R(x), r, Hdr.rtol, Hdr.atol)
 G == Hdr.g
 
-TInit == BatchInit /\ ks = <<>>
+TInit == BatchInit /\ ks = <<>> /\ tcount = 0
 
 Cont == Chk("pre_state_is_previous_post_state", ks = <<>> \/ Ev.pre = ks)
-Adopt == ks' = Ev.post
+Adopt == ks' = Ev.post /\ UNCHANGED tcount
+AdoptT(t) == ks' = Ev.post /\ tcount' = t
 
 TInitState ==
   /\ IsEvent("init_state")
@@ -33,15 +35,20 @@ TStart ==
   /\ IsEvent("start_epoch") /\ Cont
   /\ Chk("start_epoch_restarts_from_current_step_size",
          Ev.post[1] = Ev.pre[1] /\ Cl(Ev.post, DAInit(R(Ev.pre))))
-  /\ Adopt /\ Step
+  /\ AdoptT(0) /\ Step
 
 TTrans ==
   /\ IsEvent("transition") /\ Cont
+  \* the iteration number of the recurrence is the number of the transition within the epoch (however the epoch
+  \* is cut into chunks), and what is averaged is a probability
+  /\ Chk("time_in_epoch_counts_the_transitions_of_the_epoch", Ev.tie = tcount)
+  /\ Chk("acceptance_probability_fed_to_dual_averaging_is_a_probability",
+         FLe("0.0", Ev.acc) /\ FLe(Ev.acc, "1.0"))
   /\ IF IsAdapt(Ev.etype) /\ Hdr.tunes
      THEN Chk("adaptive_transition_is_da_step",
-              Cl(Ev.post, DAStep(R(Ev.pre), Ev.acc, Ev.tie, G)))
+              Cl(Ev.post, DAStep(R(Ev.pre), Ev.acc, tcount, G)))
      ELSE Chk("tuning_frozen_outside_adaptation", Ev.post = Ev.pre)
-  /\ Adopt /\ Step
+  /\ AdoptT(tcount + 1) /\ Step
 
 TEnd ==
   /\ IsEvent("end_epoch") /\ Cont
